@@ -36,7 +36,8 @@ func init() {
 				return
 			}
 			var wg sync.WaitGroup
-			wg.Add(3)
+			wg.Add(4)
+			go func() { defer wg.Done(); c01ListenersLogged(c) }()
 			go func() { defer wg.Done(); c01ListenersLimited(c) }()
 			go func() { defer wg.Done(); c01Listeners(c) }()
 			go func() { defer wg.Done(); c01UpstreamReplies(c) }()
@@ -285,6 +286,69 @@ func c01ListenersLimited(c *Ctx) {
 		c.Violation("listener:"+probeErr+":wedged:over-limit", "after hostile input from a client over its rate limit, a client of another subnet is not served on "+probeErr, map[string]any{"listener": probeErr})
 	default:
 		c.Ev.Count("limited_bed_survived", 1)
+	}
+}
+
+// c01ListenersLogged: valid queries whose names are almost entirely non-printable octets (four
+// labels of 63+63+63+up to 61 octets; the text form, \DDD per octet, is four times as long),
+// against a proxy that turns every name into text: query logging on and a regexp rule first.
+// Buffers go straight back to the pool (no quarantine), as in production.
+func c01ListenersLogged(c *Ctx) {
+	b, err := NewBed(c, "logged", BedOpts{Upstreams: []string{"pipe"}, LogQueries: true, RegexpRule: `^never-matches-anything\\.example$`,
+		Env: map[string]string{"VERIF_POOL_QUARANTINE": "0"}})
+	if err != nil {
+		c.startFailure(err, "c01-logged")
+		return
+	}
+	n := c.N(6, 60)
+	var wg sync.WaitGroup
+	for _, listener := range allListeners {
+		wg.Add(1)
+		go func(listener string) {
+			defer wg.Done()
+			for i := 0; i < n && b.Proxy.Alive(); i++ {
+				r := gen.New(c.Seed, "c01log/"+listener, i)
+				m := new(dns.Msg)
+				m.Id = uint16(r.Intn(65536))
+				m.RecursionDesired = true
+				// built by hand: miekg refuses to pack some of these octets unescaped
+				wire := []byte{byte(m.Id >> 8), byte(m.Id), 1, 0, 0, 1, 0, 0, 0, 0, 0, 0}
+				total := 0
+				for _, l := range []int{63, 63, 63, r.Range(1, 61)} {
+					wire = append(wire, byte(l))
+					for k := 0; k < l; k++ {
+						wire = append(wire, byte(r.Range(1, 31)))
+					}
+					total += l + 1
+				}
+				wire = append(wire, 4, 'p', 'i', 'p', 'e', 4, 't', 'e', 's', 't', 0)
+				if total+11 > 255 {
+					continue
+				}
+				wire = append(wire, 0, 1, 0, 1)
+				c.Ev.Eval(1)
+				b.Exchange(listener, wire, xOpts{Timeout: 5 * time.Second})
+				c.Ev.Distinct("logged-listener", listener, total/50)
+			}
+		}(listener)
+	}
+	wg.Wait()
+	var probeErr error
+	if b.Proxy.Alive() {
+		probeErr = c01Probe(b, "tcp", fmt.Sprintf("ok-after-logged%d.pipe.test.", c.Seed))
+		if probeErr != nil {
+			probeErr = c01Probe(b, "tcp", fmt.Sprintf("ok-after-logged2x%d.pipe.test.", c.Seed))
+		}
+	}
+	alive := b.Proxy.Alive()
+	res := b.Stop()
+	switch {
+	case !alive || res.Panic != "" && res.DiedBeforeStop:
+		c.Violation("listener:proxy-crash:binary-names", "the proxy (query logging on, regexp rule) crashed on valid queries whose names consist of non-printable octets: "+res.Panic, map[string]any{"panic": res.Panic})
+	case probeErr != nil:
+		c.Violation("listener:wedged:binary-names", "after valid queries with binary names the proxy no longer answers: "+probeErr.Error(), map[string]any{"err": probeErr.Error()})
+	default:
+		c.Ev.Count("logged_bed_survived", 1)
 	}
 }
 
